@@ -230,7 +230,7 @@ func drawSpecs(t *rapid.T, n int) []Spec {
 		case 3:
 			out = append(out, Spec{Name: fmt.Sprintf("media%d", i), Text: drawMediaDoc(t)})
 		case 0:
-			d := specgen.GenExchangeDoc(t, specgen.ExchangeOptions{Formats: true, TimeFormat: "date-time", Validators: true, Defaults: true, Docs: true})
+			d := specgen.GenExchangeDoc(t, specgen.ExchangeOptions{Formats: true, TimeFormat: "date-time", Validators: true, Defaults: true, PropDefaults: true, SharedParamObjects: true, Docs: true})
 			out = append(out, Spec{Name: fmt.Sprintf("exchange%d", i), Text: string(d.Render())})
 		case 1:
 			d := specgen.GenHostileDoc(t, true)
@@ -376,7 +376,7 @@ func TestHistories(t *testing.T) {
 	// always-run history over two documents whose items are nearly all described (shared
 	// multi-paragraph texts) and half of them deprecated: the comment path of every template
 	dense := rapid.Custom(func(t *rapid.T) Spec {
-		d := specgen.GenExchangeDoc(t, specgen.ExchangeOptions{Formats: true, TimeFormat: "date-time", Validators: true, Defaults: true, Docs: true, DenseDocs: true})
+		d := specgen.GenExchangeDoc(t, specgen.ExchangeOptions{Formats: true, TimeFormat: "date-time", Validators: true, Defaults: true, PropDefaults: true, SharedParamObjects: true, Docs: true, DenseDocs: true})
 		return Spec{Name: "dense-docs", Text: string(d.Render())}
 	})
 	shard, _ := vk.Shard()
